@@ -313,6 +313,8 @@ UNIT = {
                 }
             }'''),
         'LuaTreeBuilder': {'src': {'file': TB, 'kind': 'struct', 'name': 'LuaTreeBuilder'}, 'rules': [('struct-fields', {})]},
+        'LuaTreeBuilder::new': tb_fn('new', ret='r',
+            ensures='fresh(&r.green_builder), r.events == events, r.text == text /*@C01.new.fresh*/'),
         'LuaTreeBuilder::token': tb_fn('token',
             requires='wf(&old(self).green_builder)',
             ensures='''
@@ -428,8 +430,45 @@ UNIT = {
          'text and byte range the token text was sliced. The pattern spans all four statements, so the recorded range is, syntactically, the range of the slice'),
     ],
     'allow': [r'external_body', r'uninterp spec fn', r'assume_specification'],
-    'min_obligations': 10,
-    'trusted': [],
+    'min_obligations': 50,
+    'trusted': [
+        'shim rowan-0.16.1 GreenNodeBuilder (green/builder.rs, green/node_cache.rs), ghost view (emitted, open, nchildren, last_is_node): '
+        'token appends the range and one child; start_node pushes children.len() on `open`; finish_node REQUIRES an open node and first_child <= children.len() '
+        '(`parents.pop().unwrap()`, `&children[first_child..]`) and leaves first_child + 1 children, the last one a node; finish REQUIRES exactly one child and '
+        'that it is a node (`assert_eq!(self.children.len(), 1)`, `NodeOrToken::Token(_) => panic!()`) and returns a tree whose `leaves()` are `emitted()` (L4, assumed)',
+        'rowan arithmetic limit: total text length < 2^32 (TextSize is u32) is NOT modelled; it is the input assumption text.len() < 2^32 of DESIGN section 4',
+        'shim LuaGreenNodeBuilder::new(): derived Default = three empty vectors + empty rowan builder (ensures fresh)',
+        'shims `impl From<LuaSyntaxKind|LuaTokenKind> for rowan::SyntaxKind`: total, result unspecified (syntax/mod.rs: a match and a cast)',
+        'assume_specification std::mem::replace (dest := src, returns old dest) and std::mem::take (returns old dest; what is left behind is unspecified): std documentation',
+        'vx_drain_from / vx_drain_incl: std documentation of Vec::drain(range).collect(); their preconditions are exactly the documented panic conditions',
+        'rule token-ghost-range: the ghost range recorded by vx_token is the range of the `&text[start..end]` slice; the link is syntactic (the rule only matches the four-statement '
+        'sequence `let start = range.start_offset; let end = range.end_offset(); let token_text = &text[start..end]; self.builder.token(kind.into(), token_text);`) because vstd gives no '
+        'postcondition for str indexing',
+        'ASSUMPTION ranges_ok(text, eaten(events)) (precondition of finish / build_rowan_green): every token range lies inside `text`, on char boundaries, start + length <= usize::MAX '
+        '-- established by unit c01_reader (L1: tokens tile the input) and c01_parser (L2: EatToken ranges are token ranges)',
+        'ASSUMPTION events_ok(events) (precondition of build): every non-zero `parent` link of a NodeStart points to a LATER event that is a NodeStart -- established by unit c01_parser from '
+        'marker.rs (mark pushes NodeStart{parent: 0}; CompleteMarker::precede is the only writer of `parent` and stores the position of the NodeStart it has just pushed; events are never removed and '
+        'set_kind/complete/undo only change `kind`). It is sufficient for the `unreachable!()`/index obligations of the walk; the exact weakest condition is the same statement restricted to the '
+        'NodeStarts that a walk actually reaches',
+        'ASSUMPTION A-EV parents_ok(events) (precondition of build): on the abstract builder run `sim(events, i)`, whenever the next event is NodeEnd (and at the final finish_node) the start index '
+        'recorded for the node being finished is <= the number of top-level children. Not an invariant of the builder alone (API trace token(ws) token(ws) start(P) start(Block) token(x) finish finish '
+        'violates it and panics in drain(2..=0)); not reproducible through the parser (400 000 token-soup inputs x 4 language levels, 0 panics; every grammar node bumps a non-trivia token or keeps an '
+        'empty ParamList node before it opens a Block). The refinement abs(builder) == sim(..).ab is PROVED, so the assumption is a statement about the event list only',
+        'frame: LuaGreenNodeBuilder fields are private to lua_green_builder.rs and LuaTreeBuilder fields to lua_tree_builder.rs (Rust privacy), so `fresh_rowan` holds from new/with_cache until finish',
+    ],
+    'not_covered': [
+        'LuaGreenNodeBuilder::new (derived Default; shimmed with `ensures fresh`)',
+        'the numeric SyntaxKind values handed to rowan (kinds play no role in C01)',
+        'rowan itself (L4)',
+    ],
+    'samples': [
+        'finish_node: requires wf && top_ok; ensures wf && flat_all(final) == flat_all(old) (every kind branch) && abs(final) == ab_finish(abs(old)); 5 scans with decreases',
+        'token: flat_all(final) == flat_all(old).push(range); start_node: elements/children unchanged',
+        'build_rowan_green(parent, text): emitted(final) == emitted(old) + flat(old.elements, parent); rowan open-stack restored; explicit stack terminates (decreases #non-None elements, stack length)',
+        'finish(self, text): r.leaves() == flat_all(self) -- ALL roots (fails on the unrepaired tree: children.first() only)',
+        'LuaTreeBuilder::build: requires fresh && events_ok && parents_ok; ensures flat_all(green_builder) == eaten(old events); unreachable!() and events[parent_position] discharged; walk terminates',
+        'LuaTreeBuilder::new ensures fresh; LuaTreeBuilder::finish: r.leaves() == flat_all(green_builder)',
+    ],
     'mutants': [
         {'name': 'finish-node-insert-off-by-one', 'item': 'LuaGreenNodeBuilder::finish_node',
          'pattern': r'self\.children\.insert\(child_start, pos\);', 'repl': 'self.children.insert(child_start + 1, pos);',
